@@ -9,6 +9,7 @@ CFG = {
     "gen": ["params", "pow"],
     "overlay": ["consensus/aquahash/access.go"],
     "trivial_outputs": ["panic"],
+    "min_cases": 20000,
     "timeout": {"quick": 900, "thorough": 3000},
     "rule": "difficulty: real aquahash.CalcDifficulty on all six built-in configurations and random fork maps (ordered, colliding, late-era-only, with HF10) at "
             "parent heights fork-3..fork+2 of every fork, time deltas on both sides of 10 s steps, the 180/240 s limits and the -99 clamp, parent difficulties at "
